@@ -1323,7 +1323,9 @@ class ComplexModelBase(ModelBase):
     @classmethod
     def _append_to_variants(cls, field_name, field_type):
         if cls.Attributes._variants is not None:
-            for c in cls.Attributes._variants:
+            # a field of the class's own type is customized for the variants,
+            # which registers new variants.
+            for c in list(cls.Attributes._variants):
                 c.append_field(field_name, field_type)
 
     @classmethod
@@ -1334,7 +1336,7 @@ class ComplexModelBase(ModelBase):
     @classmethod
     def _insert_to_variants(cls, index, field_name, field_type):
         if cls.Attributes._variants is not None:
-            for c in cls.Attributes._variants:
+            for c in list(cls.Attributes._variants):
                 c.insert_field(index, field_name, field_type)
 
     @classmethod
@@ -1365,7 +1367,7 @@ class ComplexModelBase(ModelBase):
     @classmethod
     def _replace_in_variants(cls, field_name, field_type):
         if cls.Attributes._variants is not None:
-            for c in cls.Attributes._variants:
+            for c in list(cls.Attributes._variants):
                 c._replace_field(field_name, field_type)
 
     @classmethod
